@@ -100,7 +100,7 @@ def tyPE (cur : Ty) : PE → Ty
   | .bin _ a b => (tyPE cur a).join (tyPE cur b)
   | .cmp _ _ _ => .bool
   | .neg a => tyPE cur a
-  | .not a => tyPE cur a
+  | .not _ => .bool                 -- `not x` is a bool whatever the type of x (visit_UnaryOp, fix ea7911a)
 
 /-- element type of a chain's value after its steps; objects are tracked as `none` -/
 def chainTy : Option Ty → List Step → Option Ty
@@ -118,7 +118,7 @@ def tyEE : EE → Ty
   | .bin _ a b => (tyEE a).join (tyEE b)
   | .cmp _ _ _ => .bool
   | .neg a => tyEE a
-  | .not a => tyEE a
+  | .not _ => .bool
 
 /-! ## embedding into user-level queries -/
 
